@@ -56,6 +56,15 @@ def c08_a(ctx: Ctx):
             if enum is None:
                 n_keyed += 1
                 continue
+            # enumeration that only feeds a log message is not a listing
+            cur, in_log = par, False
+            while cur is not None and not isinstance(cur, ast.stmt):
+                if isinstance(cur, ast.Call) and canon(cur.func).startswith(("logger.", "logging.", "warnings.")):
+                    in_log = True
+                cur = pm.get(id(cur))
+            if in_log:
+                n_keyed += 1
+                continue
             root = fi
             while root.parent is not None:
                 root = root.parent
